@@ -246,6 +246,14 @@ private:
     bool m_isEmpty = true;
 };
 
+//! Orders Faces by their IDs (which reflect the order in which the Faces were
+//! computed) rather than by pointer value, so that iteration over a set of Faces
+//! does not depend on where the Faces happened to be allocated.
+struct CmpFacesById {
+    bool operator()(const Face_SP &lhs, const Face_SP &rhs) const;
+};
+typedef std::set<Face_SP, CmpFacesById> FacesOrderedById;
+
 //! Holds all the Face objects for a given 4-planar, orthogonal layout,
 //! and provides methods to use and manage them.
 class FaceSet {
@@ -291,7 +299,7 @@ private:
     Faces m_faces;
     Face_SP m_externalFace;
     //! Let each Node ID map to the vector of Faces to which it belongs.
-    std::map<id_type, std::set<Face_SP>> m_facesByMemberNodeId;
+    std::map<id_type, FacesOrderedById> m_facesByMemberNodeId;
     //! We also want lookups for aligned sets of nodes, i.e. want to be able to look up
     //! for any given node, what is the set of all other nodes with which it is aligned
     //! in either dimension.
